@@ -68,9 +68,11 @@ AngleWithin(a, b, deg) ==
         lhs == Sg(x) * x * x * c[3]           \* cos(angle), signed square, times y * den
         rhs == c[1] * c[2] * y                \* cos(deg),   signed square, times y * den
     IN IF y = 0 THEN "free" ELSE Within(rhs, lhs)      \* angle smaller <=> cosine larger
+\* an angle beyond 180 degrees includes every direction (used to mean "any orientation")
+AngleWithinAny(a, b, deg) == IF deg > 180 THEN (IF N2(a) * N2(b) = 0 THEN "free" ELSE "T") ELSE AngleWithin(a, b, deg)
 
 \* ---- criterion "facing": angle between the face normal and direction d within deg
-FacingVerdict(vpos, faces, f, c) == AngleWithin(FaceNormal(vpos, faces, f), c.d, c.deg)
+FacingVerdict(vpos, faces, f, c) == AngleWithinAny(FaceNormal(vpos, faces, f), c.d, c.deg)
 
 \* ---- criterion "near": reference = axis-aligned rectangle, normal axis ax (1..3), offset h, in-plane range
 \* lo..hi along the two cyclically following axes, normal +axis if up.  (u, v, w) = in-plane, in-plane, normal.
@@ -83,12 +85,21 @@ Planar2(rf, p) == LET q == Uvw(rf.ax, p) du == Excess(q[1], rf.lo[1], rf.hi[1]) 
                   IN du * du + dv * dv
 Dist2(rf, p)   == LET q == Uvw(rf.ax, p) IN Planar2(rf, p) + (q[3] - rf.h) * (q[3] - rf.h)
 
+\* optional sliver: a zero-area reference triangle (a segment of that length) sticking out of the corner `hi` along the
+\* first in-plane axis.  It counts for the distance; it has no normal, so where it is the closest part of the reference
+\* the planar and angle tolerances have no defined meaning (free unless the distance already fails)
+Sliver(rf) == IF "sliver" \in DOMAIN rf THEN rf.sliver ELSE 0
+SliverD2(rf, p) == LET q == Uvw(rf.ax, p) du == Excess(q[1], rf.hi[1], rf.hi[1] + Sliver(rf)) dv == q[2] - rf.hi[2]
+                   IN du * du + dv * dv + (q[3] - rf.h) * (q[3] - rf.h)
 \* tolerances are given in half lattice units (dt2, pt2): d <= t/2  <=>  4 d^2 <= t^2
 VertexVerdict(rf, c, p, fnormal) ==
-    LET near   == Within(4 * Dist2(rf, p), c.dt2 * c.dt2)
+    LET onSliver == Sliver(rf) > 0 /\ SliverD2(rf, p) <= Dist2(rf, p)
+        d2     == IF onSliver THEN SliverD2(rf, p) ELSE Dist2(rf, p)
+        near   == Within(4 * d2, c.dt2 * c.dt2)
         planar == IF c.hpt THEN Within(4 * Planar2(rf, p), c.pt2 * c.pt2) ELSE "T"
         angle  == IF c.had THEN AngleWithin(fnormal, Axis(rf.ax, rf.up), c.adeg) ELSE "T"
-    IN And3(near, And3(planar, angle))
+    IN IF onSliver /\ (c.hpt \/ c.had) THEN (IF near = "F" THEN "F" ELSE "free")
+       ELSE And3(near, And3(planar, angle))
 NearVerdict(vpos, faces, f, c) ==
     LET t == Fc(faces, f) n == FaceNormal(vpos, faces, f)
         v(k) == VertexVerdict(c.ref, c, vpos[t[k]], n)
